@@ -49,6 +49,38 @@ theorem nextEvent_spec (evs evs' : List Ev) (wk wk' : List Nat) (ev : Ev)
         subst h1 h3
         exact ⟨fun w hw => by have := hs.2 w hw; omega, fun w hw _ => hw⟩
 
+/-- a foreign event is an external one: the scheduled wake-ups are untouched -/
+theorem nextEvent_keeps (evs evs' : List Ev) (wk wk' : List Nat) (ev : Ev)
+    (h : nextEvent evs wk = some (ev, evs', wk')) (hf : ev.foreign = true) : ∀ w ∈ wk, w ∈ wk' := by
+  unfold nextEvent at h
+  cases hm : minL wk with
+  | none =>
+    cases evs with
+    | nil => simp [hm] at h
+    | cons e r =>
+      simp [hm] at h
+      obtain ⟨_, _, h3⟩ := h
+      subst h3
+      exact fun w hw => hw
+  | some m =>
+    cases evs with
+    | nil =>
+      simp [hm] at h
+      obtain ⟨h1, _, _⟩ := h
+      subst h1
+      simp at hf
+    | cons e r =>
+      simp only [hm] at h
+      split at h
+      · simp only [Option.some.injEq, Prod.mk.injEq] at h
+        obtain ⟨h1, _, _⟩ := h
+        subst h1
+        simp at hf
+      · simp only [Option.some.injEq, Prod.mk.injEq] at h
+        obtain ⟨_, _, h3⟩ := h
+        subst h3
+        exact fun w hw => hw
+
 theorem flush_now (s : St) : (flush s).now = s.now := by
   unfold flush
   generalize s.dq.reverse = l
@@ -109,28 +141,30 @@ theorem activate_now (t : Nat) (s : St) : (activate t s).now = t := by
       exact (keeps_pushEntry u _).2.1
   rw [this]
 
-/-- a module event (repaired code) from a state with nothing runnable, at an instant that no pending deadline
-precedes: it ends with nothing runnable, no late observation, every pending timer in the future of its instant -/
+/-- an own event of the module (repaired code) from a state in which only foreign wakes are pending, at an instant
+that no pending deadline precedes: it ends with nothing runnable, no late observation, every pending timer in the
+future of its instant -/
 theorem handle_spec (P : Params) (hL : 1 ≤ P.L) (hE : 1 ≤ P.E) (hC : 1 ≤ P.C) (ev : Ev) (s : St)
-    (hq : Quiet s) (ho : OnTime s) (hns : ∀ tm ∈ s.timers, ev.time ≤ tm.deadline) :
+    (hf : ev.foreign = false) (hq : Pend s) (ho : OnTime s) (hns : ∀ tm ∈ s.timers, ev.time ≤ tm.deadline) :
     Quiet (handle P false ev s) ∧ OnTime (handle P false ev s) ∧
     (∀ tm ∈ (handle P false ev s).timers, ev.time < tm.deadline) := by
-  have hi := handle_inv P false ev s hq ho hns
+  have hi := handle_inv P false ev s hf hq ho hns
   have hnow : (handle P false ev s).now = ev.time := by
     unfold handle
+    simp only [hf, Bool.false_eq_true, if_false]
     have h0 := activate_inv ev.time s hq ho hns
     by_cases hc : ev.consumed = true
     · simp only [hc, if_true]
       have h1 := runH_inv ev.prog _ h0
-      simp only [Bool.false_eq_true, if_false]
       rw [exec_now P _ _ h1.1, h1.2, activate_now]
     · simp only [hc]
       simp only [Bool.false_eq_true, if_false]
       rw [exec_now P _ _ h0, activate_now]
   have hquiet : Quiet (handle P false ev s) := by
     unfold handle
+    simp only [hf, Bool.false_eq_true, if_false]
     by_cases hc : ev.consumed = true
-    · simp only [hc, if_true, Bool.false_eq_true, if_false]
+    · simp only [hc, if_true]
       exact exec_quiet P hL hE hC _ _
     · simp only [hc, Bool.false_eq_true, if_false]
       exact exec_quiet P hL hE hC _ _
@@ -192,13 +226,15 @@ theorem deactivate_sched (s : St) (t : Nat) (wk wk' : List Nat) (nw : Option Nat
         exact ⟨fun tm htm => ⟨w, hw, by have := hle tm htm; omega⟩,
           fun w0 h => by simp only [Option.some.injEq] at h; subst h; exact hw⟩
 
-/-- the whole run of a module (repaired code): every event ends with nothing runnable and no task - woken by a
-task, by the handler, by a consuming element or by a timer - ever observes a time later than the instant at
-which its awaited condition became true -/
+/-- the whole run of a module (repaired code), interleaved with events of other modules that wake its tasks: every
+own event ends with nothing runnable, between own events only foreign wakes are pending, and no task - woken by
+a task, by the handler, by a consuming element or by a timer - ever observes a time later than the instant at
+which its awaited condition became true (tasks woken by another module's event continue at the module's next own
+event) -/
 theorem runSim_onTime (P : Params) (hL : 1 ≤ P.L) (hE : 1 ≤ P.E) (hC : 1 ≤ P.C) :
     ∀ (n : Nat) (evs : List Ev) (wk : List Nat) (nw : Option Nat) (s : St),
-      Quiet s → OnTime s → Sched s wk nw →
-      OnTime (runSim P false n evs wk nw s) ∧ Quiet (runSim P false n evs wk nw s) := by
+      Pend s → OnTime s → Sched s wk nw →
+      OnTime (runSim P false n evs wk nw s) ∧ Pend (runSim P false n evs wk nw s) := by
   intro n
   induction n with
   | zero => intro evs wk nw s hq ho _; exact ⟨ho, hq⟩
@@ -211,12 +247,27 @@ theorem runSim_onTime (P : Params) (hL : 1 ≤ P.L) (hE : 1 ≤ P.E) (hC : 1 ≤
       obtain ⟨ev, evs', wk'⟩ := x
       simp only
       have hspec := nextEvent_spec evs evs' wk wk' ev hne
-      have hns : ∀ tm ∈ s.timers, ev.time ≤ tm.deadline := by
-        intro tm htm
-        obtain ⟨w, hw, hle⟩ := hs.1 tm htm
-        have := hspec.1 w hw
-        omega
-      have hh := handle_spec P hL hE hC ev s hq ho hns
-      exact ih _ _ _ _ hh.1 hh.2.1 (deactivate_sched _ ev.time wk wk' nw hs.2 hspec.2)
+      cases hf : ev.foreign with
+      | true =>
+        simp only [if_true]
+        have hh := handle_foreign P false ev s hf hq ho
+        refine ih _ _ _ _ hh.1 hh.2.1 ⟨fun tm htm => ?_, fun w0 h => ?_⟩
+        · rw [hh.2.2] at htm
+          obtain ⟨w, hw, hle⟩ := hs.1 tm htm
+          have hge := hspec.1 w hw
+          rcases Nat.lt_or_ge ev.time w with hlt | hge'
+          · exact ⟨w, hspec.2 w hw hlt, hle⟩
+          · -- the wake-up event of this very instant is still scheduled: an external event never removes it
+            exact ⟨w, nextEvent_keeps evs evs' wk wk' ev hne hf w hw, hle⟩
+        · exact nextEvent_keeps evs evs' wk wk' ev hne hf w0 (hs.2 w0 h)
+      | false =>
+        simp only [Bool.false_eq_true, if_false]
+        have hns : ∀ tm ∈ s.timers, ev.time ≤ tm.deadline := by
+          intro tm htm
+          obtain ⟨w, hw, hle⟩ := hs.1 tm htm
+          have := hspec.1 w hw
+          omega
+        have hh := handle_spec P hL hE hC ev s hf hq ho hns
+        exact ih _ _ _ _ (pend_of_quiet _ hh.1) hh.2.1 (deactivate_sched _ ev.time wk wk' nw hs.2 hspec.2)
 
 end Exec
